@@ -387,6 +387,7 @@ func TestC19Reregistration(t *testing.T) {
 		latest := map[int]*want{}
 		var hist, sig []string
 		changed, shared := false, false
+		keepaliveElsewhere := false
 		connIDs := map[*connInfo]map[int]bool{}
 		prober := nodeIdent(4)
 		var probeConn *conn
@@ -405,6 +406,29 @@ func TestC19Reregistration(t *testing.T) {
 			endpoint := rapid.SampledFrom([]string{"connect", "connect", "host", "client"}).Draw(rt, "endpoint")
 			otherBefore, otherErr := st.GetNode(store.NodeID(other.nodeID))
 			selfBefore, selfErr := st.GetNode(store.NodeID(self.nodeID))
+			// a registered host may send a keep-alive over another connection than the one it registered on (a second
+			// agent process, a reconnect without re-registration): that does not change the address it is advertised under
+			if latest[who] != nil && latest[who].isHost && selfErr == nil && rapid.IntRange(0, 2).Draw(rt, "keepaliveElsewhere") == 0 {
+				var oc *connInfo
+				for _, cand := range conns {
+					if cand != lastHostConn[who] && cand != ci {
+						oc = cand
+					}
+				}
+				if oc == nil {
+					oc = newConn()
+				}
+				ureq := pool.UpdateRequest{PeerInfo: peerInfos(nil, false), BlockNumber: 78}
+				nonce++
+				var uresp pool.UpdateResponse
+				uerr := oc.c.agentSide.Call(ctx, &uresp, "vipnode_update", mustSign(self.key, "vipnode_update", self.nodeID, nonce, ureq), self.nodeID, nonce, ureq)
+				after, aerr := st.GetNode(store.NodeID(self.nodeID))
+				hist = append(hist, fmt.Sprintf("%s sends a keep-alive over another connection (source %s) -> err=%v", self.name, oc.addr, uerr))
+				if aerr != nil || after.URI != selfBefore.URI {
+					rt.Fatalf("a keep-alive of host %s sent over another connection (source %s) changed the address it is advertised under: %s -> %s\ndriver=%s history:\n  %s", self.name, oc.addr, uriOrAbsent(selfBefore, selfErr), uriOrAbsent(after, aerr), driver, strings.Join(hist, "\n  "))
+				}
+				keepaliveElsewhere = true
+			}
 			// sometimes one of this identity's keep-alives (sent over the connection it last registered on as a host) is
 			// still being served while this registration arrives, and then fails in its balance step: the failure must
 			// not bring back the record the keep-alive read at its start
@@ -655,7 +679,7 @@ func TestC19Reregistration(t *testing.T) {
 				}()
 			}
 		}
-		rec.Case(fmt.Sprintf("rereg|%s|%v", driver, sig), changed || shared, []string{"rereg", "rereg:" + driver, fmt.Sprintf("rereg:address-changed=%v", changed), fmt.Sprintf("rereg:shared-connection=%v", shared)}, func() interface{} {
+		rec.Case(fmt.Sprintf("rereg|%s|%v", driver, sig), changed || shared, []string{"rereg", "rereg:" + driver, fmt.Sprintf("rereg:address-changed=%v", changed), fmt.Sprintf("rereg:shared-connection=%v", shared), fmt.Sprintf("rereg:keepalive-over-another-connection=%v", keepaliveElsewhere)}, func() interface{} {
 			return map[string]interface{}{"kind": "registration history", "driver": driver, "history": hist}
 		})
 	})
